@@ -426,7 +426,10 @@ func (f *Frame) pointEnv(st *State, b *ssa.BasicBlock, idx int, extra map[string
 	}
 	e := &Env{u: u, st: st, old: u.entry, bound: map[string]boundVar{}, pkg: pkg, qctr: &u.qctr, fn: f.fn}
 	e.lookup = func(e *Env, name string) (TV, bool) {
-		if extra != nil {
+		// `var_<name>`: the program variable <name>, even where a contract word (result, ret0, ...) has that name
+		if strings.HasPrefix(name, "var_") && len(name) > 4 {
+			name = name[4:]
+		} else if extra != nil {
 			if tv, ok := extra[name]; ok {
 				return tv, true
 			}
